@@ -136,7 +136,7 @@ def compute_reference_table(names):
 
     table = {}
     C = corpus.load()
-    for name in names:
+    for name in list(names) + corpus.generated_names():
         if name not in C:
             continue
         for variant in variants_for(C[name]):
@@ -190,7 +190,9 @@ def run(ch, idx, tier):
         if not any(v["cls"] == cls and v["site"] == site for v in violations):
             violations.append({"cls": cls, "site": site, "detail": detail})
 
-    names = [n for n in PROJECTS if n in _CORPUS and n not in HEAVY]
+    from atomsim import corpus as _corpus_mod
+
+    names = [n for n in PROJECTS if n in _CORPUS and n not in HEAVY] + _corpus_mod.generated_names()
     heavy = [n for n in PROJECTS if n in _CORPUS and n in HEAVY]
     K = 1 + ch.choose("n_clients", 4)
     stride = [1, 1, 3, 10][ch.choose("baton_stride", 4)]
